@@ -35,7 +35,13 @@ STR_POOL = ["", "a", "aa", "zz", "0x00", "aa" * 31, "aa" * 33, "aa" * 32, "aa" *
             # strings that other decoders may take for hex / digits
             "١١", "٠١٢٣４５", "a١", "１２", "aa\n", " aa", "aa ", "a a", "+1", "0_0",
             "m/４４'/0'/0'/0/0", "m/44'/0'/0'/0/0\n", "m/44'/0'/0'/0/0 ", "\u0000", "aa\u0000",
-            "AA", "aA" * 32, "0X00"]
+            "AA", "aA" * 32, "0X00",
+            # one byte off the two heartbeat lengths
+            "aa" * 15, "aa" * 17,
+            # exactly 32 / 64 characters that an integer parser takes for base 16
+            "0x" + "a" * 30, "-" + "a" * 31, "+" + "a" * 31, "a_" * 16, " " + "a" * 31,
+            "a" * 31 + " ", "0x" + "a" * 62, "-" + "a" * 63, "a_" * 32, " " + "a" * 63,
+            "0X" + "A" * 30, "a" * 31 + "\n"]
 INT_POOL = [-1, 0, 1, 5, 2 ** 31, 2 ** 32 - 1, 2 ** 32, 2 ** 63, 2 ** 64 - 1, 2 ** 64, -2 ** 64,
             10 ** 400, True, False, 1.0, 5.0, 1.5, "1", "5", None, [], {}]
 LIST_POOL = [[], [[]], [1], ["aa"], ["aa", "bb"], [None], {}, "aa", None, 0, [["aa"]],
@@ -144,6 +150,7 @@ def run_case(c):
     mark = len(w.log)
     line = json.dumps(req)
     rep = p.handle_request(json.loads(line))
+    mw.check_sim(w)
     if not isinstance(rep, dict) or type(rep.get("errorcode")) is not int:
         raise Violation("reply-shape", "request %s -> %r" % (line[:300], rep))
     apdus = w.apdus(mark)
@@ -163,6 +170,8 @@ def run_case(c):
         labels.append("mut:" + m.split(":")[0])
     if amb:
         labels.append("ambiguous")
+        # docs silent on who refuses what here; whatever the answer, it is a documented code
+        _documented_code(mode, req, rep, line)
         return Out(labels, False)
     labels.append("verdict:%s" % verdict)
     if verdict not in al:
@@ -175,13 +184,17 @@ def run_case(c):
             str(x) for x in sorted(al, key=str))),
             "mode %s request %s -> %r; docs allow %s" % (mode, line[:400], rep,
                                                          sorted(al, key=str)))
+    _documented_code(mode, req, rep, line)
+    for m in c["muts"]:
+        labels.append("class:%s:%s" % (c["tpl"], m))
+    return Out(labels, bool(c["muts"]) and type(req) is dict)
+
+
+def _documented_code(mode, req, rep, line):
     if mode == "v5" and type(req) is dict and type(req.get("command")) is str and \
             req["command"] in spec.DOCUMENTED:
         if rep["errorcode"] not in spec.DOCUMENTED[req["command"]] | spec.GENERIC:
             raise Violation("undocumented-code", "request %s -> %r" % (line[:300], rep))
-    for m in c["muts"]:
-        labels.append("class:%s:%s" % (c["tpl"], m))
-    return Out(labels, bool(c["muts"]) and type(req) is dict)
 
 
 CROSS_POOL = [None, True, False, 0, 1, -1, 1.0, 1.5, "", "aa", [], {}, [1], {"a": 1}]
